@@ -46,6 +46,7 @@ Post(p) ==
     /\ \A i \in 1..Len(SS) : req'[SS[i]] = p.req[i]
     /\ SeqBag(emL') = SeqBag(p.emL)
     /\ SeqBag(emP') = SeqBag(p.emP)
+    /\ emC' = p.emC
     /\ NOpenOf(ctl', ctlPend', leaked', pools', exec') = p.nopen
 
 TraceInit == tid \in 1..NTraces /\ l = 1 /\ Init
